@@ -106,6 +106,34 @@ def compare_target(ctx, py, t, mo, what_prefix=''):
                     return 'internal', 'rhs[%d][%d]: impl %.12g model %.12g' % (i, v, float(R[i][v]), float(MR[i][v]))
     return None, ''
 
+def check_oracle(py, t):
+    """the covariance values harvested from Model::eval against the definition (nested structures, anisotropy, rotation), in floats"""
+    ndim, nvar, model = py['ndim'], py['nvar'], py['model']
+    scale = sum(abs(float(undy(x))) for st in model['structs'] for x in st[4]) + 1e-30
+    X = lambda r: [py['dbin']['coords'][d][r] for d in range(ndim)]
+    x0 = [py['dbout']['coords'][d][t['it']] for d in range(ndim)]
+    def cmp(M, d, what):
+        ref = cov_reference(model, ndim, nvar, [float(x) for x in d])
+        for a in range(nvar):
+            for b in range(nvar):
+                v = float(undy(M[a][b]))
+                if abs(v - ref[a][b]) > 1e-9 * scale:
+                    return '%s, increment %s, variables (%d,%d): Model::eval gives %.12g, the definition %.12g' % (what, [float(x) for x in d], a, b, v, ref[a][b])
+        return None
+    nb = t['nbgh']
+    for i in range(len(nb)):
+        xi = X(nb[i])
+        if any(x is None for x in xi): continue
+        for j in range(i + 1):
+            xj = X(nb[j])
+            if any(x is None for x in xj): continue
+            r = cmp(t['clhs'][i][j], [a - b for a, b in zip(xi, xj)], 'data-data')
+            if r: return r
+        if py['calcul'][0] == 0 and not any(x is None for x in x0):
+            r = cmp(t['crhs'][i][0], [a - b for a, b in zip(xi, x0)], 'data-target')
+            if r: return r
+    return cmp(t['c00'], [0] * ndim, 'target-target')
+
 def cond_number(A):
     """inf-norm condition number of the model's exact LHS, inverse by floating Gauss-Jordan with partial pivoting (tolerance scaling only)"""
     n = len(A)
@@ -164,6 +192,13 @@ def run(ctx):
     for (ci, py, t), mo, mc in zip(mref, model, mcases):
         if mo and mo[0] == -999:
             print('ERROR: model rejected a case'); sys.exit(3)
+        orc = check_oracle(py, t)
+        if orc:
+            nout += 1; found_input = True
+            ctx.violation('covariance:' + '+'.join(sorted(set(['NUGGET', 'SPHERICAL', 'EXPONENTIAL', 'GAUSSIAN', 'CUBIC'][st[0]] for st in py['model']['structs'])))
+                          + (':aniso' if any(st[2] for st in py['model']['structs']) else '') + (':rotated' if any(st[3] for st in py['model']['structs']) else '') + ':%dD' % py['ndim'],
+                          'the covariance the system is assembled from is not the model\'s: ' + orc, {'impl_case': sx_str(cases[ci][1]), 'target': t['it']})
+            continue
         kind, text = compare_target(ctx, py, t, mo)
         if kind == 'excluded':
             ctx.cov['tie_excluded'] += 1; ctx.count(None, False); continue
@@ -185,7 +220,7 @@ def run(ctx):
                        'SK/OK/UK order 0-2, external drifts, nested anisotropic rotated structures, unique/moving, point/block; distinct = distinct model case text; '
                        'non-trivial = condition number <= 1e7 (others counted as tie_excluded)')
     if not proofs_ok: proof_break_violation(ctx, found_input)
-    ctx.assumptions = ['covariance values enter as oracles harvested from Model::eval on exactly the pairs used (the covariance function itself is C03\'s subject)',
+    ctx.assumptions = ['covariance values enter the Coq model as oracles harvested from Model::eval on exactly the pairs used; each harvested value is also compared, in floats, with the definition sum_s sill_s rho_s(|diag(scadef/range) R d|) evaluated independently in checks/kriggen.py (spherical, exponential, gaussian, cubic, nugget; documented rotation convention); the exact treatment of the covariance functions is C03\'s subject',
                        'round-off tolerance 1e-9 x exact condition number (inf-norm) computed by the model',
                        'block kriging: the block variance term Cvv is the exact mean (computed in checks/C01.py) of the covariance oracle over the pairs of discretisation points the code uses, harvested from KrigingSystem']
 
